@@ -1,7 +1,7 @@
 (* Extraction of the executable model. Directives used: only those of ExtrOcamlBasic and
    ExtrOcamlZBigInt (listed in DESIGN.md section 4); nat stays the inductive type. *)
 From Coq Require Import Extraction ExtrOcamlBasic ExtrOcamlZBigInt.
-From Verif Require Import Model.C14Run Model.Prog Model.C16Run Model.Plonk Model.C12Run Model.C13Run Model.C15Run Model.C05Run Model.C17Run Model.C02Run Model.C08Run Model.C09Run Model.C10Run Model.C05Run2 Model.C05Run3 Model.C07Run Model.BatchFri.
+From Verif Require Import Model.C14Run Model.Prog Model.C16Run Model.Plonk Model.C12Run Model.C13Run Model.C15Run Model.C05Run Model.C17Run Model.C02Run Model.C08Run Model.C09Run Model.C10Run Model.C05Run2 Model.C05Run3 Model.C07Run Model.BatchFri Model.C16Run2.
 Extraction Language OCaml.
 Extraction "model.ml"
   run_add run_sub run_mul run_addc run_subc run_red96 run_red128 run_red160 run_mac run_neg run_square
@@ -12,7 +12,7 @@ Extraction "model.ml"
   run_cap run_prove run_proveall run_verify run_compress run_decompress run_bcap run_bopen run_bopenall run_bverify run_hashleaf run_twoto1
   run_poseidon run_poseidon_naive run_poseidon_raw run_poseidon_spec run_poseidon_fast run_mds_layer run_partial_rounds run_hash_no_pad run_hash_n_to_m run_two_to_one run_hash_or_noop run_hash_pad run_challenger run_rchallenger run_challenger_x
   run_revbits run_revidx run_revidx_inplace run_transpose run_roottable run_fft run_fft_r run_fftx run_ifft run_ifft_r run_ifftx run_coset_fft run_coset_fft_r run_coset_ifft run_lde run_lde_coset run_clde run_prou run_two_adic_subgroup run_eval run_evalpow run_polyadd run_polysub run_polymul run_scalarmul run_trim run_trimlen run_padded run_degp1 run_lead run_divlin run_divrem run_divremlong run_invmodxn run_interp run_baryw run_interpolate run_interp2 run_zpoc run_zpoc_l0 run_cosetshifts
-  run_friverify run_batchfriverify
+  run_friverify run_batchfriverify run_fricompress run_fridecompress run_friinferred
   run_enc_u8 run_enc_u32 run_enc_usize run_enc_bool run_enc_field run_enc_ext run_enc_hash run_enc_cap
   run_enc_mproof run_enc_usizevec run_enc_strategy run_enc_friconfig run_enc_friparams run_enc_circuitconfig
   run_enc_openings run_enc_verifieronly run_enc_proof
